@@ -126,6 +126,7 @@ let parse_act universe a =
   | 'G' -> ADb (parse_db (tail a))
   | 'P' -> APw (pw_of_list (parse_pw (tail a)))
   | 'M' -> AMtime (if a = "M!" then None else Some (z_of_int (int_of_string (tail a))))
+  | 'Y' -> ALookups []          (* the group file is / is not a symbolic link: no event of the model (stat follows it) *)
   | 'S' -> ASighup
   | 't' -> AClock (z_of_int (int_of_string (tail a)))
   | 'c' -> AAdvance (z_of_int (int_of_string (tail a)))
@@ -177,7 +178,7 @@ let run_pair line =
       List.iter (fun op ->
           if op <> "" then
           match op.[0] with
-          | 'G' | 'P' | 'M' -> passive (parse_act universe op)
+          | 'G' | 'P' | 'M' | 'Y' -> passive (parse_act universe op)
           | 'H' ->
               (match String.split_on_char '/' (tail op) with
                | [j; t; g; e; f] ->
